@@ -212,7 +212,15 @@ def main():
                         stats["scalars"] += not data.shape
                         url = "http://localhost:8001/f.dods?%s%s" % (dap2id, txt)
                         try:
-                            res = open_dods_url(url, application=h)
+                            # with the default block size, or (a deployment setting) with blocks of a few bytes
+                            app_h = h
+                            if rng.random() < 0.4:
+                                bs_ = rng.choice([1, 3, 5, 8, 16])
+
+                                def app_h(environ, start_response, h=h, bs_=bs_):
+                                    environ["pydap.buffer_size"] = bs_
+                                    return h(environ, start_response)
+                            res = open_dods_url(url, application=app_h)
                             var = res
                             for part in dap2id.split("."):
                                 var = var[part]
